@@ -281,7 +281,7 @@ def _discharge2(pc, goal, want_smt2=False, all_backends=False, scale=1, quick=Fa
     """Check validity of  And(pc) => goal."""
     t0 = time.time()
     if z3.is_true(goal):
-        return Verdict('unsat', 'trivial', 0.0)
+        return Verdict('unsat', 'path-evaluation', 0.0)
     s = z3.Solver()
     staged = scale == 1 and Z3_FIRST_TIMEOUT_MS < Z3_TIMEOUT_MS and _uses_strings(list(pc) + [goal])
     s.set('timeout', Z3_FIRST_TIMEOUT_MS if staged else Z3_TIMEOUT_MS * scale)
